@@ -488,7 +488,9 @@ fn check_program_at(w: &mut Worker, rig: &Rig, name: &str, text: &str, tape: &[(
 
 pub fn worker(w: &mut Worker) {
     let tier = w.tier;
-    w.set_case_limit_ms(30_000);
+    // the programs are small (the longest runs a few thousand command entries): ten seconds of
+    // processor time on one of them is a run that ignores the flag
+    w.set_case_limit_ms(10_000);
     let rig = Rig::new();
     let horizon = tier.pick(20usize, 60usize);
     for (name, text) in handwritten() {
